@@ -85,7 +85,7 @@ theorem cvd_ext (K : CharClass) (cs : List Char) (v : Name) (d : Option Name) (r
                 subst hc
                 simp at h4
                 subst h4
-                simp [expect]
+                simp [expect, domPart]
               · simp at h4
 
 theorem tempUn_plain {c c2 : Char} {t : Tok} (h : tempUn c c2 = some t) : PlainTok t := by
